@@ -10,6 +10,7 @@ import (
 	"net/http"
 	"strings"
 	"sync"
+	"syscall"
 	"time"
 
 	martian "github.com/google/martian/v3"
@@ -40,7 +41,7 @@ import (
 // re-armed by the handler loop also expires inside it.
 
 const (
-	ProxyTimeout = 3 * time.Second
+	ProxyTimeout = 6 * time.Second
 )
 
 var (
@@ -164,11 +165,16 @@ func (s *proxySession) start() bool {
 	}()
 
 	// client: CONNECT, then TLS with ALPN h2 inside the tunnel
-	if s.cconn, err = net.Dial("tcp", s.pl.Addr().String()); err != nil {
-		return s.fail("dial proxy: %v", err)
-	}
+	d := net.Dialer{}
 	if s.cell.State == "proxy-client-stalled-late-frame" {
-		s.cconn.(*net.TCPConn).SetReadBuffer(16 << 10)
+		// a client with a small receive buffer (set before the SYN, so that the advertised window and
+		// with it the proxy's send buffer stay small and the stall is reached after little data)
+		d.Control = func(_, _ string, c syscall.RawConn) error {
+			return c.Control(func(fd uintptr) { syscall.SetsockoptInt(int(fd), syscall.SOL_SOCKET, syscall.SO_RCVBUF, 8<<10) })
+		}
+	}
+	if s.cconn, err = d.Dial("tcp", s.pl.Addr().String()); err != nil {
+		return s.fail("dial proxy: %v", err)
 	}
 	s.t0 = time.Now() // the handler loop set its deadline no later than now + ProxyTimeout
 	target := s.ul.Addr().String()
